@@ -20,7 +20,8 @@ Fixpoint dec_items (n : nat) (l : list Z) : option (list fitem * list Z) :=
 
 Definition c17_run (l : list Z) : list Z :=
   match l with
-  | 1 :: acc :: n :: t =>
+  (* kind 4: the same question asked of a ControlNetwork built with with_filter: is the frame delivered by recv *)
+  | 1 :: acc :: n :: t | 4 :: acc :: n :: t =>
       if (n <? 0) || (Z.of_nat (length t) <? n) then bad_case else
       match dec_items (Z.to_nat n) t with
       | Some (its, [id]) => [Zbool (filter_matches (negb (acc =? 0)) its id)]
@@ -44,7 +45,7 @@ Definition ref_item (it : fitem) (id : Z) : bool :=
 
 Definition c17_check (l o : list Z) : bool :=
   match l with
-  | 1 :: acc :: n :: t =>
+  | 1 :: acc :: n :: t | 4 :: acc :: n :: t =>
       match dec_items (Z.to_nat n) t, o with
       | Some (its, [id]), [m] =>
           let any := existsb (fun it => ref_item it id) its in
@@ -70,6 +71,6 @@ Definition c17_check (l o : list Z) : bool :=
 
 Definition c17_nontriv (l o : list Z) : bool :=
   match l with
-  | 1 :: _ :: n :: _ => 0 <? n
+  | 1 :: _ :: n :: _ | 4 :: _ :: n :: _ => 0 <? n
   | 2 :: _ => true | 3 :: _ => true
   | _ => false end.
